@@ -249,6 +249,8 @@ def m_unwrap_or_default(ex, st, func, args, argtys, dest_ty):
         return [("ret", False, None)]
     if re.search(r"Option<", dest_ty):
         return [("ret", none(), None)]
+    if norm_ty(dest_ty) == "Chain":
+        return [("ret", Enum("Chain", 0, []), None)]       # #[default] Mainnet of the lift shim's Chain (src/chain.rs has the same default)
     raise Unsupported("unwrap_or_default for %s" % dest_ty)
 
 
@@ -1017,7 +1019,7 @@ def m_f64_class(ex, st, func, args, argtys, dest_ty):
 
 # ------------------------------------------------------------------ formatting (recorded, not rendered)
 
-@model(r"core::fmt::rt::Argument::<'_>::(new_display|new_debug|from_usize)")
+@model(r"fmt::rt::Argument::<'_>::(new_display|new_debug|from_usize)")
 def m_fmt_arg(ex, st, func, args, argtys, dest_ty):
     return [("ret", Opaque("fmtarg", deref(args[0])), None)]
 
@@ -2060,3 +2062,134 @@ def m_option_or(ex, st, func, args, argtys, dest_ty):
 @model(r"Option::<.*>::and$")
 def m_option_and(ex, st, func, args, argtys, dest_ty):
     return [("ret", args[1] if args[0].variant == 1 else none(), None)]
+
+
+# ---- Option<HashSet<T>>::iter().flatten().chain(..).cloned().collect::<HashSet<T>>()  (Settings::or, `hidden`)
+# The iterator adaptors are carried as the list of element values they will yield, in order.
+
+@model(r"^(std::option::)?Option::<(std::collections::)?HashSet<.*>>::iter$")
+def m_option_set_iter(ex, st, func, args, argtys, dest_ty):
+    o = deref(args[0])
+    return [("ret", Opaque("optiter", [o.fields[0]] if o.variant == 1 else []), None)]
+
+
+@model(r"^<std::option::Iter<'_, (std::collections::)?HashSet<.*>> as Iterator>::flatten$")
+def m_optiter_flatten(ex, st, func, args, argtys, dest_ty):
+    out = []
+    for s in args[0].data:
+        s = deref(s)
+        if not isinstance(s, Container):
+            raise Unsupported("flatten over %r" % (s,))
+        out.extend(list(s))
+    return [("ret", Opaque("elems", out), None)]
+
+
+@model(r"^<Flatten<std::option::Iter<'_, (std::collections::)?HashSet<.*>>> as Iterator>::chain::<Flatten<.*>>$")
+def m_elems_chain(ex, st, func, args, argtys, dest_ty):
+    return [("ret", Opaque("elems", list(args[0].data) + list(args[1].data)), None)]
+
+
+@model(r"^<Cloned<std::iter::Chain<Flatten<.*>, Flatten<.*>>> as Iterator>::collect::<(std::collections::)?HashSet<.*>>$")
+def m_elems_collect_set(ex, st, func, args, argtys, dest_ty):
+    """set semantics: an element equal to one already collected is dropped (equality decided by the solver)"""
+    out = []
+    for x in args[0].data:
+        dup = False
+        for y in out:
+            lt, eq = lex_cmp(x, y)
+            if ex.decide(st, eq):
+                dup = True
+                break
+        if not dup:
+            out.append(copy.deepcopy(x))
+    return [("ret", Container("hashset", out), None)]
+
+
+@model(r"^<std::iter::Chain<Flatten<.*>, Flatten<.*>> as Iterator>::cloned::<.*>$")
+def m_elems_cloned(ex, st, func, args, argtys, dest_ty):
+    return [("ret", args[0], None)]
+
+
+# ---- std::path as uninterpreted tokens (Settings::merge): a path is an Int; joining a
+# file name and asking the file system are uninterpreted functions of it, so the
+# existence test is an arbitrary Bool the path forks on.
+
+_PATH_JOIN = z3.Function("path_join", z3.IntSort(), z3.IntSort(), z3.IntSort())
+_PATH_EXISTS = z3.Function("path_exists", z3.IntSort(), z3.BoolSort())
+
+
+@model(r"^<(std::path::)?PathBuf as From<&(std::path::)?PathBuf>>::from$|^<(std::path::)?PathBuf as Clone>::clone$")
+def m_pathbuf_from_ref(ex, st, func, args, argtys, dest_ty):
+    return [("ret", deref(args[0]), None)]
+
+
+@model(r"^<(std::path::)?PathBuf as Deref>::deref$")
+def m_pathbuf_deref(ex, st, func, args, argtys, dest_ty):
+    return [("ret", args[0], None)]
+
+
+@model(r"^(std::path::)?Path::join::<&str>$")
+def m_path_join(ex, st, func, args, argtys, dest_ty):
+    name = deref(args[1])
+    chars = getattr(name, "chars", None)
+    if isinstance(name, str):
+        chars = [ord(c) for c in name]
+    if chars is None or not all(is_conc(c) for c in chars):
+        raise Unsupported("Path::join with a non-literal name %r" % (name,))
+    import zlib
+    key = z3.IntVal(zlib.crc32(bytes(int(c) & 255 for c in chars)))
+    return [("ret", _PATH_JOIN(zint(deref(args[0])), key), None)]
+
+
+@model(r"^(std::path::)?Path::exists$")
+def m_path_exists(ex, st, func, args, argtys, dest_ty):
+    return [("ret", ex.decide(st, _PATH_EXISTS(zint(deref(args[0])))), None)]
+
+
+@model(r"^bool::then_some::<.*>$")
+def m_bool_then_some(ex, st, func, args, argtys, dest_ty):
+    b = args[0]
+    if not is_conc(b):
+        b = ex.decide(st, b)
+    return [("ret", some(args[1]) if b else none(), None)]
+
+
+@model(r"^<(std::option::)?Option<((std::path::)?PathBuf|String|(std::string::)?String)> as Clone>::clone$")
+def m_option_path_clone(ex, st, func, args, argtys, dest_ty):
+    return [("ret", copy.deepcopy(deref(args[0])), None)]
+
+
+@model(r"^<(std::option::)?Option<.*> as (std::default::)?Default>::default$")
+def m_option_default(ex, st, func, args, argtys, dest_ty):
+    return [("ret", none(), None)]
+
+
+@model(r"^<bool as (std::default::)?Default>::default$")
+def m_bool_default(ex, st, func, args, argtys, dest_ty):
+    return [("ret", False, None)]
+
+
+
+@model(r"^(alloc::fmt::|std::fmt::)?format$")
+def m_fmt_format(ex, st, func, args, argtys, dest_ty):
+    """format!(..): the resulting String is carried as the recorded template and arguments"""
+    return [("ret", Opaque("formatted", args[0].data), None)]
+
+
+@model(r"^(core::hint::|std::hint::)?must_use::<.*>$")
+def m_must_use(ex, st, func, args, argtys, dest_ty):
+    return [("ret", args[0], None)]
+
+
+@model(r"array::<impl \[.*; \d+\]>::map::<.*>$")
+def m_array_map(ex, st, func, args, argtys, dest_ty):
+    """[T; N]::map(f): the closure is run on every element in order (non-forking closures only)"""
+    arr = deref(args[0])
+    out = []
+    for x in list(arr):
+        res = call_closure(ex, st, args[1], [x])
+        live = [r for r in res if r[2] is None or is_conc(r[2]) and r[2] or (not is_conc(r[2]) and ex.feasible(st.pc, r[2]))]
+        if len(live) != 1 or live[0][0] != "ret":
+            raise Unsupported("array::map closure forks or panics")
+        out.append(live[0][1])
+    return [("ret", Struct(out), None)]
